@@ -63,7 +63,8 @@ package main
 //             decoded name byte (measured 267; names ≤ 127·n gives the 36000).
 //   B1 = 16   DHCPv4 (append-grown values: ≤ 5x, + ToBytes buffer).
 //   B0 = 8192 (DHCPv4: 65536, the map growth of up to 256 entries).
-// hang: decoding uses more than 2 s of CPU (or the 20 s wall watchdog fires).
+// hang: decoding uses more than 2 s of user CPU, or the wall-clock watchdog
+// (5 s for small inputs .. 20 s for 65507 bytes) fires and the probe is killed.
 // ---------------------------------------------------------------------------
 
 import (
@@ -125,7 +126,11 @@ func checkCost(entry string, b []byte, m costMeasure) (classes []string, what []
 	ec := entryClass(entry)
 	if m.Hang {
 		classes = append(classes, "hang:"+ec)
-		what = append(what, fmt.Sprintf("decoding %d bytes used %.2f s CPU (limit %.0f s) or the watchdog fired", m.N, float64(m.DecNs)/1e9, hangLimit.Seconds()))
+		if m.DecNs < 0 {
+			what = append(what, fmt.Sprintf("decoding %d bytes did not finish within the %.0f s watchdog (probe killed)", m.N, float64(-m.DecNs)/1e9))
+		} else {
+			what = append(what, fmt.Sprintf("decoding %d bytes used %.2f s of CPU (limit %.0f s)", m.N, float64(m.DecNs)/1e9, hangLimit.Seconds()))
+		}
 		return
 	}
 	if m.Died != "" {
@@ -329,6 +334,7 @@ func oracleC09(r *Rng, n int, thorough bool, seeds []string) *OracleResult {
 	workers := 6
 	seen := map[uint64]struct{}{}
 	failedFam := map[string]bool{}
+	hungFam := map[string]bool{} // a family that hung once is not fed again (20 s of watchdog each)
 
 	record := func(cs []costCase, ms []costMeasure) {
 		for i, c := range cs {
@@ -351,6 +357,11 @@ func oracleC09(r *Rng, n int, thorough bool, seeds []string) *OracleResult {
 					float64(m.AllocAll)/nn, float64(m.Deep)/nn, float64(m.AllocAll)/(nn*float64(max(m.Depth, 1))), float64(m.AllocAll)/(nn*nn/4), m.Hang, m.Died)
 			}
 			classes, what := checkCost(c.Entry, c.B, m)
+			if m.Hang || m.Died != "" || len(classes) > 0 {
+				// a family that failed (or hung) is not fed again at larger sizes:
+				// the smallest failing member is the report, the rest only costs time
+				hungFam[c.Entry+"/"+c.Name] = true
+			}
 			for j, cl := range classes {
 				key := cl + "/" + c.Name
 				if failedFam[key] {
@@ -372,6 +383,9 @@ func oracleC09(r *Rng, n int, thorough bool, seeds []string) *OracleResult {
 	}
 	if len(cs) > 0 {
 		record(cs, measureAll(cs, workers))
+		if n == 0 {
+			return finishC09(res, worst, seen) // replay: only the given inputs
+		}
 	}
 
 	// 1. the adversarial families, ascending sizes (so the smallest failing size is reported)
@@ -386,6 +400,9 @@ func oracleC09(r *Rng, n int, thorough bool, seeds []string) *OracleResult {
 			if sz == maxUDP && !thorough && isHeavyFamily(f.Name) &&
 				!((f.Entry == "label" && (f.Name == "fan253x1" || f.Name == "fan253x63")) || (f.Entry == "v6" && f.Name == "fan253x1")) {
 				continue // ~1-2 s CPU each: the full cross product is thorough-tier
+			}
+			if hungFam[f.Entry+"/"+f.Name] {
+				continue
 			}
 			cs = append(cs, costCase{f.Entry, f.Name, f.Build(sz)})
 		}
@@ -465,7 +482,8 @@ func oracleC09(r *Rng, n int, thorough bool, seeds []string) *OracleResult {
 			best := score(pc.measure(cur.Entry, cur.B))
 			var lcs []costCase
 			var lms []costMeasure
-			for s := 0; s < steps; s++ {
+			hangs := 0
+			for s := 0; s < steps && hangs < 2; s++ {
 				cand := costCase{cur.Entry, cur.Name, mutateCost(rr, cur.B)}
 				if len(cand.B) > 4096 {
 					continue // climbs stay small: ratios, not sizes, are what they look for
@@ -473,6 +491,9 @@ func oracleC09(r *Rng, n int, thorough bool, seeds []string) *OracleResult {
 				m := pc.measure(cand.Entry, cand.B)
 				lcs = append(lcs, cand)
 				lms = append(lms, m)
+				if m.Hang || m.Died != "" {
+					hangs++
+				}
 				if sc := score(m); sc >= best && !m.Hang && m.Died == "" {
 					best, cur = sc, cand
 				}
@@ -558,6 +579,7 @@ type counter struct{ n float64 }
 func (c *counter) Add(d float64) float64 { c.n += d; return c.n }
 
 var costMismatch = &counter{}
+var costStreamHangs int
 
 func execCost(op string, args []string) string {
 	var entry string
@@ -574,8 +596,12 @@ func execCost(op string, args []string) string {
 	default:
 		return "bad-op"
 	}
+	if costStreamHangs >= 3 {
+		return "hang" // circuit breaker: the stream is broken already, do not wait 5 s per further case
+	}
 	m := costStreamClient.measure(entry, b)
 	if m.Hang || m.Died != "" {
+		costStreamHangs++
 		return "hang"
 	}
 	if !m.OK {
